@@ -139,4 +139,5 @@ def cells(tier):
                     out.append(Cell(name=name, fn=_make(entry, tool, coolant, bmode, reset),
                                     budget_s=60 if tier == "quick" else 240,
                                     must_reach=(), entry=f"GCodeBuilder.{entry}"))
+    out += history_variants([c for c in out if not c.name.startswith(('history', 'real-', 'two-'))])
     return out
